@@ -40,6 +40,8 @@ impl OutputFormat for TundraDraw {
         let mut attr = TextAttribute::from_u8(0, buf.ice_mode);
         let mut skip_pos = None;
         let mut colors = HashSet::new();
+        // the loader does not start from this buffer's colour 0: the first cell always carries both colours
+        let mut first = true;
 
         let fonts = analyze_font_usage(buf);
         if fonts.len() > 1 {
@@ -86,11 +88,13 @@ impl OutputFormat for TundraDraw {
                 let mut cmd = 0;
                 let write_foreground = buf.palette.get_color(attr.get_foreground()).get_rgb() != buf.palette.get_color(cur_attr.get_foreground()).get_rgb()
                     || attr.is_bold() != cur_attr.is_bold()
-                    || (1..=6).contains(&ch);
+                    || (1..=6).contains(&ch)
+                    || first;
                 if write_foreground {
                     cmd |= TUNDRA_COLOR_FOREGROUND;
                 }
-                let write_background = buf.palette.get_color(attr.get_background()).get_rgb() != buf.palette.get_color(cur_attr.get_background()).get_rgb();
+                let write_background = buf.palette.get_color(attr.get_background()).get_rgb() != buf.palette.get_color(cur_attr.get_background()).get_rgb() || first;
+                first = false;
                 if write_background {
                     cmd |= TUNDRA_COLOR_BACKGROUND;
                 }
